@@ -242,11 +242,12 @@ def drive_repl(kinds, rng):
 
 
 def split_lines(text, rng):
-    """Break a one-line program at some spaces."""
+    """Break a one-line program at some spaces, now and then with an empty line (or one of blanks) in between."""
     parts = text.split(" ")
     out = parts[0]
     for p in parts[1:]:
-        out += ("\n" if rng.random() < 0.35 else " ") + p
+        r = rng.random()
+        out += ("\n\n" if r < 0.06 else "\n  \n" if r < 0.1 else "\n" if r < 0.38 else " ") + p
     return out
 
 
@@ -376,7 +377,7 @@ def main_c40(run):
                       "every history of %d inputs over {ok, None, compile failure, run-time failure, print failure} "
                       "(TLC-enumerated), each replayed through hy.repl.REPL.runsource with multi-line inputs fed line by "
                       "line; after every call (*1,*2,*3,*e,printed) is recorded and the session is trace-validated by TLC "
-                      "against HyRepl; plus random programs split at line breaks compared with the reader's completeness "
+                      "against HyRepl; plus random programs split at line breaks (also empty lines inside forms) compared with the reader's completeness "
                       "and with script execution" % maxin,
                       extra={"exhaustive": True})
 
@@ -411,9 +412,9 @@ def main_c41(run):
         groups.setdefault((tuple(ln["lead"]), tuple(ln["rest"])), []).append(ln)
     keys = sorted(groups)
     pick = rng.sample(keys, min(len(keys), 22 if q else 500))
-    # always include the option-like arguments
+    # always include the empty argument list and the option-like arguments
     for k in keys:
-        if k[1] in (("-B",), ("--spy", "-c"), ("--", "-m"), ("-i",), ("-x", "--foo=bar")) and k[0] == ():
+        if k[1] in ((), ("-B",), ("--spy", "-c"), ("--", "-m"), ("-i",), ("-x", "--foo=bar")) and k[0] == ():
             pick.append(k)
     pick = sorted(set(pick))
     wd = run.work / "cmd"
